@@ -417,6 +417,40 @@ def gen_dot_twosided():
     )
 
 
+def gen_assoc_chains():
+    """Chains of 3-5 operands joined by operators of one precedence group ({+,-}, {*,/,%in%}, {:}), nested to the left
+    (rendered without parentheses: associativity decides) or to the right (rendered with them)."""
+    name = st.sampled_from(G.NAMES[:5]).map(lambda n: ["n", n])
+    group = st.sampled_from([["*", "/", "%in%"], ["*", "/", "%in%"], ["+", "-"], [":"], ["*", "%in%"], ["/", "%in%"]])
+
+    @st.composite
+    def strat(draw):
+        ops_pool = draw(group)
+        k = draw(st.integers(3, 5))
+        operands = [draw(name) for _ in range(k)]
+        ops = [draw(st.sampled_from(ops_pool)) for _ in range(k - 1)]
+        if draw(st.booleans()):
+            tree = operands[0]
+            for o, x in zip(ops, operands[1:]):
+                tree = ["b", o, tree, x]
+        else:
+            tree = operands[-1]
+            for o, x in zip(reversed(ops), reversed(operands[:-1])):
+                tree = ["b", o, x, tree]
+        if draw(st.integers(0, 3)) == 0:
+            tree = ["b", "+", tree, draw(name)]
+        if draw(st.integers(0, 3)) == 0:
+            # the same interaction written in both factor orders, over names that only differ in how digits are
+            # padded (x1 / x01 / x001) or ordered (x2 / x10): one term, whichever way the factors are sorted
+            a_, b_ = draw(st.permutations(["x1", "x01", "x001", "x2", "x10"]))[:2]
+            pair = ["b", draw(st.sampled_from(["+", "-"])), ["b", ":", ["n", a_], ["n", b_]], ["b", ":", ["n", b_], ["n", a_]]]
+            tree = ["b", "+", tree, pair] if draw(st.booleans()) else ["b", "+", pair, tree]
+        return {"tree": {"lhs": None, "rhs": [tree], "tilde": False}, "ws": draw(st.lists(st.integers(0, 5), max_size=3)), "spells": [],
+                "cfg": {"intercept": draw(st.booleans()), "flags": ["TWOSIDED", "MULTIPART"], "avail": None}}
+
+    return strat()
+
+
 def gen_specforms():
     return st.builds(
         lambda t, ws: {"tree": t, "ws": ws, "spells": []},
@@ -425,7 +459,7 @@ def gen_specforms():
     )
 
 
-N = {"quick": (2500, 800, 500, 800, 600, 400), "thorough": (40000, 8000, 6000, 8000, 6000, 5000)}
+N = {"quick": (2500, 800, 500, 800, 600, 400, 500), "thorough": (40000, 8000, 6000, 8000, 6000, 5000, 6000)}
 BUDGET_S = {"quick": 60, "thorough": 1500}
 
 
@@ -434,6 +468,7 @@ def campaigns(tier, shard=0, nshards=1):
     return [
         Campaign("grammar", gen_grammar(10), check_grammar, n[0]),
         Campaign("dot-twosided", gen_dot_twosided(), check_grammar, n[5]),
+        Campaign("assoc-chains", gen_assoc_chains(), check_grammar, n[6]),
         Campaign("identities", gen_identity(), check_identity, n[1]),
         Campaign("specforms", gen_specforms(), check_specforms, n[2]),
         Campaign("reject", gen_reject(), check_reject, n[3]),
